@@ -272,6 +272,66 @@ pub fn generate(ctx: &Ctx, rng: &mut Rng, n_ops: u64) -> String {
     let mut s = String::new();
     s.push_str("O init\n");
     s.push_str(&exec(ctx, &mut st, "init"));
+    // a dummy tour [a, x, b] whose middle trip is the only connection (a -> x -> b connectable,
+    // a -> b not): taking x out must be refused; otherwise [a, b] can later be handed to a real
+    // vehicle as a "trusted" path (C01: consecutive activities connectable)
+    if rng.chance(40) {
+        let nn = ctx.nodes.len();
+        let nw = &ctx.nw;
+        let mut gaps: Vec<(usize, usize, usize)> = vec![];
+        for a in 0..nn {
+            for x in 0..nn {
+                for b in 0..nn {
+                    let (na, nx, nb) = (ctx.n(a), ctx.n(x), ctx.n(b));
+                    if nw.node(na).is_service()
+                        && nw.node(nx).is_service()
+                        && nw.node(nb).is_service()
+                        && nw.vehicle_type_for(na) == nw.vehicle_type_for(nb)
+                        && nw.vehicle_type_for(na) == nw.vehicle_type_for(nx)
+                        && nw.can_reach(na, nx)
+                        && nw.can_reach(nx, nb)
+                        && !nw.can_reach(na, nb)
+                    {
+                        gaps.push((a, x, b));
+                    }
+                }
+            }
+        }
+        if !gaps.is_empty() {
+            let (a, x, b) = *rng.pick(&gaps);
+            let vt = nw.vehicle_type_for(ctx.n(a)).0 as usize;
+            let mut run = |st: &mut State, s: &mut String, op: String| {
+                s.push_str(&format!("O {}\n", op));
+                s.push_str(&exec(ctx, st, &op));
+            };
+            run(&mut st, &mut s, format!("spawn {} {} {} {}", vt, a, x, b));
+            if let Some(v) = st.sched.vehicles_iter_all().last() {
+                run(&mut st, &mut s, format!("delete {}", veh_tok(v)));
+            }
+            if let Some(d) = st.sched.dummy_iter().last() {
+                // two possible receivers
+                for _ in 0..2 {
+                    let p = random_path(ctx, rng, Some(vt), 2);
+                    if !p.is_empty() {
+                        run(&mut st, &mut s, format!("spawn {} {}", vt, list_tok(p)));
+                    }
+                }
+                let reals: Vec<VehicleIdx> = st.sched.vehicles_iter_all().collect();
+                if !reals.is_empty() && st.sched.is_dummy(d) {
+                    let r1 = *rng.pick(&reals);
+                    run(&mut st, &mut s, format!("fit {} {} {} {}", veh_tok(d), veh_tok(r1), x, x));
+                    if st.sched.is_dummy(d) {
+                        let nodes = tour_nodes(&st.sched, d);
+                        if nodes.len() >= 2 {
+                            let r2 = *rng.pick(&reals);
+                            let kind = if rng.chance(50) { "override" } else { "fit" };
+                            run(&mut st, &mut s, format!("{} {} {} {} {}", kind, veh_tok(d), veh_tok(r2), nodes[0], nodes[nodes.len() - 1]));
+                        }
+                    }
+                }
+            }
+        }
+    }
     let mut done = 0;
     let mut tries = 0;
     while done < n_ops && tries < 4 * n_ops {
